@@ -8,12 +8,13 @@ os.makedirs(dst, exist_ok=True)
 for f in ("patch.diff", "demo.py", "demo.c", "notes.md"):
     if os.path.exists(os.path.join(src, f)):
         shutil.copy(os.path.join(src, f), dst)
-conf = open(os.path.join(src, "confirm.txt")).read().strip() if os.path.exists(os.path.join(src, "confirm.txt")) else ""
+cf = os.path.join(src, "confirm_mine.txt") if os.path.exists(os.path.join(src, "confirm_mine.txt")) else os.path.join(src, "confirm.txt")
+conf = open(cf).read().strip() if os.path.exists(cf) else ""
 notes = open(os.path.join(src, "notes.md")).read() if os.path.exists(os.path.join(src, "notes.md")) else ""
 meta = {"property": pid, "id": "%s_%s" % (pid, m),
         "needs_to_manifest": notes[:1500],
         "confirmed": conf,
-        "what_i_ran": ["scratch worktree: demo.py on pristine tree (rc 0), git apply patch.diff + rebuild, demo.py (rc != 0), full pytest suite (873 passed)",
+        "what_i_ran": ["scratch worktree /tmp/seed/wt_confirm (confirm.sh): build pristine, demo.py (rc 0), git apply patch.diff + rebuild, demo.py (rc != 0), full pytest suite (873 passed, same failures as baseline)",
                        "git -C /repo apply patch.diff; ./check %s --tier quick; git -C /repo checkout -- ." % pid],
         "detected_by_check": caught, "how": checks}
 json.dump(meta, open(os.path.join(dst, "meta.json"), "w"), indent=1)
